@@ -84,7 +84,9 @@ def check_pair(case, rng):
     except Exception as e:  # noqa: BLE001
         return [(f'C03:transient-of-renamed-circuit-raises-{type(e).__name__}', str(e)[:120], rep)]
     sv = max([np.max(np.abs(v)) for v in V.values()] + [1e-12])
-    si = max([np.max(np.abs(v)) for v in I.values()] + [1e-12])
+    rmin = min([c['params']['R'] for c in case['components'] if c['kind'] == 'resistor'] + [1.0])
+    # a current scale even when nothing flows (a source with no closed path): what the voltages could drive through the smallest resistor
+    si = max([np.max(np.abs(v)) for v in I.values()] + [1e-12, 1e-6 * sv / rmin])
     g, g2 = circgen.expected_ground(case), circgen.expected_ground(other)
     for i in V:
         if np.max(np.abs(V[i] - V2[im[i]])) > 1e-6 * sv or np.max(np.abs(I[i] - I2[im[i]])) > 1e-6 * si:
